@@ -191,6 +191,10 @@ structure World where
   reg : Url → RegResp
   tok : Nat → Url → TokResp
   fetch : Url → FetchAnswer      -- by authorization endpoint
+  /-- `AuthorizationCodeHandlerConfig.NewTokenSource` is set AND returns an error in this round (a configured
+  callback, like the fetcher).  When it is set and succeeds the source it returns is the one installed; the
+  harness's constructor wraps `oauth2.Config.TokenSource`, so its expiry behaviour is the default one. -/
+  ntsFails : Bool := false
 
 /-! ### Handler configuration and the 401/403 response -/
 
@@ -262,7 +266,7 @@ inductive Outcome
   | asmUrl | asmFetch | asmIssuer | asmPkce | asmField
   | preIss | reg | noReg
   | fetch | state | issMissing | issMismatch | issUnexpected
-  | exch | post
+  | exch | tsErr | post
 deriving DecidableEq, Repr
 
 /-! ### Protected-resource metadata discovery -/
@@ -395,7 +399,8 @@ structure Result where
   asm : Option AsmDoc := none       -- the metadata in use (document or fall-back)
 deriving Repr
 
-/-- After the fetcher returned: state comparison, RFC 9207 check, exchange, installation, and the
+/-- After the fetcher returned: state comparison, RFC 9207 check, exchange, construction of the token source
+(`NewTokenSource` if configured: its error ends the call with NOTHING installed), installation, and the
 post-installation token read of `updateGrantedScopes`. -/
 def finish (w : World) (a : AsmDoc) (issuer resource : Url) (cred : Cred) (probe : Bool) (pre : List Event) : Result :=
   match w.fetch a.authorizationEndpoint with
@@ -406,8 +411,12 @@ def finish (w : World) (a : AsmDoc) (issuer resource : Url) (cred : Cred) (probe
       | 0 =>
         match exchange w a.tokenEndpoint cred probe with
         | (.fail, l4) => { log := pre ++ l4, outcome := .exch, issuer := some issuer, resource := resource, asm := some a }
-        | (.good, l4) => { log := pre ++ l4, outcome := .ok, installed := true, issuer := some issuer, resource := resource, asm := some a }
-        | (.goodExpired, l4) => { log := pre ++ l4, outcome := .post, installed := true, issuer := some issuer, resource := resource, asm := some a }
+        | (.good, l4) =>
+          if w.ntsFails then { log := pre ++ l4, outcome := .tsErr, issuer := some issuer, resource := resource, asm := some a }
+          else { log := pre ++ l4, outcome := .ok, installed := true, issuer := some issuer, resource := resource, asm := some a }
+        | (.goodExpired, l4) =>
+          if w.ntsFails then { log := pre ++ l4, outcome := .tsErr, issuer := some issuer, resource := resource, asm := some a }
+          else { log := pre ++ l4, outcome := .post, installed := true, issuer := some issuer, resource := resource, asm := some a }
       | 1 => { log := pre, outcome := .issMissing, issuer := some issuer, resource := resource, asm := some a }
       | 2 => { log := pre, outcome := .issMismatch, issuer := some issuer, resource := resource, asm := some a }
       | _ => { log := pre, outcome := .issUnexpected, issuer := some issuer, resource := resource, asm := some a }
@@ -486,5 +495,96 @@ def Handler.authorize (h : Handler) (r : Round) : Handler × Result :=
 def Handler.run (h : Handler) : List Round → Handler × List Result
   | [] => (h, [])
   | r :: rs => ((Handler.run (h.authorize r).1 rs).1, (h.authorize r).2 :: (Handler.run (h.authorize r).1 rs).2)
+
+/-! ### Attempts in flight: several `Authorize` calls on one handler at the same time
+
+The transport calls `Authorize` from every `Write` that is answered 401/403, and several transports may
+share one handler: two or more calls can be in flight at once, each parked in the
+`AuthorizationCodeFetcher` with ITS OWN freshly generated `state` (`getAuthorizationCode`: `state :=
+rand.Text()`, a local variable; trusted: values of `crypto/rand.Text` generated for different attempts
+differ).  What comes back from the fetcher carries a state VALUE: the one generated for some attempt of
+this handler — this one, one still in flight, one long finished — or a value no attempt generated
+(forged, empty).  The code compares it with the local variable and nothing else: the handler keeps no
+table of outstanding states (structural fact `oauth.handler.fields`), so an attempt accepts exactly
+the state generated for it.
+
+An attempt is ATOMIC in two pieces: `start` (everything up to the call of the fetcher: it reads the
+fixed configuration, the network and — for the scopes it asks for, Scopes.lean — `grantedScopes`; it writes
+nothing on the handler) and `finish` (from the
+fetcher's return: state comparison, RFC 9207 check, exchange, `h.tokenSource = ts` under `mu`).  The
+model therefore computes the whole result of an attempt at its `finish` step from the attempt alone;
+the only effect on the handler is the token source served.  The finishing piece itself touches the
+handler only in its last statement, so the moment the fetcher returns (`answer`: the checks run and the
+token request leaves) is a step of its own WITHOUT effect: other attempts may start, be answered and
+finish while the token request of this one is under way. -/
+
+/-- The `state` of an authorization response: generated for attempt `k` of this handler (attempts are
+numbered in the order they start), or a value no attempt of this handler generated. -/
+inductive StateVal
+  | gen (attempt : Nat)
+  | foreign
+deriving DecidableEq, Repr
+
+/-- The fetcher's answer with the state VALUE it carries. -/
+inductive FetchV
+  | err
+  | result (state : StateVal) (iss : Url)
+deriving Repr
+
+/-- What the answer is for attempt `own`: `authRes.State != state` compares with the state generated
+for THIS attempt. -/
+def FetchV.answer (own : Nat) : FetchV → FetchAnswer
+  | .err => .err
+  | .result s iss => .result (s == .gen own) iss
+
+/-- One call of `Authorize` that may overlap others: request URL, 401/403 response, the network it
+sees (the `fetch` field of `world` is not read), and what the fetcher is answered. -/
+structure Attempt where
+  serverUrl : Url
+  inp : Input
+  world : World
+  fetchV : Url → FetchV
+
+/-- The attempt as a round of the sequential model, once its number is known. -/
+def Attempt.round (a : Attempt) (own : Nat) : Round :=
+  { serverUrl := a.serverUrl, inp := a.inp,
+    world := { prm := a.world.prm, asm := a.world.asm, reg := a.world.reg, tok := a.world.tok,
+               fetch := fun u => (a.fetchV u).answer own, ntsFails := a.world.ntsFails } }
+
+/-- A handler with attempts in flight. -/
+structure CHandler where
+  cfg : HConfig
+  started : Nat := 0
+  served : Served := .initial
+  flight : List (Nat × Attempt) := []
+
+inductive Step
+  | start (a : Attempt)      -- `Authorize` is called; the attempt gets the next number
+  | answer (k : Nat)         -- the fetcher of attempt `k` returns: state comparison, RFC 9207 check, the token request
+                             -- leaves — none of which reads or writes the handler; the attempt now waits for the token response
+  | finish (k : Nat)         -- attempt `k` runs to its end (from wherever it waits): token response, installation
+
+/-- The result of attempt `k` of a handler with configuration `c`. -/
+def attemptResult (c : HConfig) (k : Nat) (a : Attempt) : Result :=
+  authorize (c.at (a.round k).serverUrl) (a.round k).inp (a.round k).world
+
+/-- One step; `finish k` reports the number and the result of the attempt (nothing if no such attempt is in flight). -/
+def CHandler.step (c : CHandler) : Step → CHandler × Option (Nat × Result)
+  | .start a => ({ c with started := c.started + 1, flight := c.flight ++ [(c.started, a)] }, none)
+  | .answer _ => (c, none)
+  | .finish k =>
+    match c.flight.lookup k with
+    | none => (c, none)
+    | some a =>
+      let res := attemptResult c.cfg k a
+      ({ c with served := if res.installed then .round k else c.served, flight := c.flight.filter fun p => p.1 != k },
+       some (k, res))
+
+/-- Any schedule of starts and finishes: the final handler and the reported results, in order. -/
+def CHandler.run (c : CHandler) : List Step → CHandler × List (Nat × Result)
+  | [] => (c, [])
+  | s :: ss =>
+    let r := CHandler.run (c.step s).1 ss
+    (r.1, match (c.step s).2 with | some x => x :: r.2 | none => r.2)
 
 end OAuth
